@@ -170,6 +170,10 @@ func checkNAParams(what string, f *sipsp.PFromBody, buf []byte) string {
 			return fmt.Sprintf("%s expires=%s reported as %d (expected %s)", what, exp[0], f.Expires, want.String())
 		}
 	}
+	if len(exp) == 1 && !allDigits([]byte(exp[0])) && !strings.ContainsAny(exp[0], "\"\\ \t\r\n") && exp[0] != "" && f.Expires != 0 {
+		// text that is no number at all cannot yield a number (a leading digit run is a truncated one)
+		return fmt.Sprintf("%s expires=%s is not a number but Expires=%d is reported", what, exp[0], f.Expires)
+	}
 	if len(q) == 1 {
 		s := q[0]
 		ip, fp := s, ""
